@@ -59,8 +59,11 @@ def code_schema():
             Argument("e", NonNullType(ListType(color)), default_value=[1, "g"]),
             Argument("fl", Float, default_value=1.5), Argument("b", Boolean, default_value=False), Argument("i", ID, default_value="x"),
             Argument("nul", String, default_value=None), Argument("z", Int, default_value=0), Argument("emp", String, default_value=""),
+            Argument("one", Int, default_value=1), Argument("fz", Float, default_value=0.0), Argument("fo", Float, default_value=1.0),
+            Argument("deep", NonNullType(ListType(NonNullType(ListType(NonNullType(ListType(NonNullType(Int))))))), default_value=[[[1]]]),
         ]),
         Field("pet", pet), Field("named", ListType(NonNullType(named))),
+        Field("deep7", NonNullType(ListType(NonNullType(ListType(NonNullType(ListType(NonNullType(String)))))))),
     ])
     return Schema(query)
 
